@@ -3,7 +3,7 @@
    front pipeline computed from the regenerated routing tables.  Body/query parsing, JSON formatting of
    errors and the read routes are covered by the differential fuzz stream of the check, not by a theorem. *)
 From PV Require Import Proofs.Defs Proofs.C15.
-From PV Require Import Gen.GenRoutes Spec.Pipeline.
+From PV Require Import Gen.GenRoutes Spec.Pipeline Gen.GenExc Spec.ExcSpec Proofs.C15x.
 
 (* no write request, in any state (reachable or not), at any microversion, is answered with a 5xx:
    every failure of the object layer is converted into a 4xx *)
@@ -29,3 +29,60 @@ Theorem C15_rejected_no_effect : forall cf d r d' rs,
   req_wf r = true -> step cf d r = (d', rs) -> 400 <= status rs -> core_eq d d'.
 Proof. exact c15_rejected_no_effect. Qed.
 Print Assumptions C15_rejected_no_effect.
+
+(* The error answers of the model are those of the code: exc_resp reads the table regenerated on every build from the
+   `try` statements of placement/handlers/*.py (which exception classes each handler catches around its object-layer
+   call, through local functions and re-raising clean-up handlers, and which webob answer and error code it raises;
+   500 = not caught).  For the allocation writes and the reshaper the agreement is for EVERY exception of the model,
+   caught or not ... *)
+Theorem C15_exceptions_allocations : forall e,
+  exc_resp S_allocation__set_allocations_for_consumer__replace_all e = Some (alloc_err e) /\
+  exc_resp S_allocation__set_allocations__replace_all e = Some (alloc_err e) /\
+  exc_resp S_reshaper__reshape__reshape e = Some (reshape_err e).
+Proof. intro e. repeat split; [apply exc_alloc_put_all|apply exc_alloc_post_all|apply exc_reshape_all]. Qed.
+Print Assumptions C15_exceptions_allocations.
+
+(* ... for the inventory writes: whenever the modelled transaction fails, the handler answers with the table's entry *)
+Theorem C15_exceptions_inventory_set : forall d v u g l me e,
+  find_rp d u = Some me -> g = rp_gen me -> existsb (bad_capacity v) l = false ->
+  set_inventory d u (rp_gen me) l = Err e ->
+  Some (snd (h_inv_set d v u g l)) = exc_resp S_inventory__set_inventories__set_inventory e.
+Proof. exact h_inv_set_fail. Qed.
+Print Assumptions C15_exceptions_inventory_set.
+
+Theorem C15_exceptions_inventory_post : forall d v u x me e,
+  find_rp d u = Some me -> bad_capacity v x = false -> add_inventory d u (rp_gen me) x = Err e ->
+  Some (snd (h_inv_post d v u x)) = exc_resp S_inventory__create_inventory__add_inventory e.
+Proof. exact h_inv_post_fail. Qed.
+Print Assumptions C15_exceptions_inventory_post.
+
+Theorem C15_exceptions_inventory_delete : forall d u rc me e,
+  find_rp d u = Some me -> delete_inventory d u (rp_gen me) rc = Err e ->
+  Some (snd (h_inv_delete d u rc)) = exc_resp S_inventory__delete_inventory__delete_inventory e.
+Proof. exact h_inv_delete_fail. Qed.
+Print Assumptions C15_exceptions_inventory_delete.
+
+(* ... and for the remaining write routes, entry by entry *)
+Theorem C15_exceptions_other :
+  (forall e, e = EInvRcNotFound \/ e = ERpConcurrent ->
+     exc_resp S_inventory__update_inventory__update_inventory e = Some (inv_put_err e)) /\
+  (forall e, e = EHasChildren \/ e = ERpInUse \/ e = ENotFound ->
+     exc_resp S_resource_provider__delete_resource_provider__destroy e = Some (rp_delete_err e)) /\
+  exc_resp S_trait__update_traits_for_resource_provider__set_traits ERpConcurrent = Some (err 409 C_CONCURRENT) /\
+  exc_resp S_trait__delete_traits_for_resource_provider__set_traits ERpConcurrent = Some (err 409 C_CONCURRENT) /\
+  exc_resp S_aggregate__set_aggregates__set_aggregates ERpConcurrent = Some (err 409 C_CONCURRENT) /\
+  exc_resp S_trait__delete_trait__destroy ETraitNotFound = Some (err 404 C_DEFAULT) /\
+  exc_resp S_trait__delete_trait__destroy ETraitStandard = Some (err 400 C_DEFAULT) /\
+  exc_resp S_trait__delete_trait__destroy ETraitInUse = Some (err 409 C_DEFAULT) /\
+  exc_resp S_resource_class__delete_resource_class__destroy ERcStandard = Some (err 400 C_DEFAULT) /\
+  exc_resp S_resource_class__delete_resource_class__destroy ERcInUse = Some (err 409 C_DEFAULT) /\
+  exc_resp S_resource_class__create_resource_class__create ERcExists = Some (err 409 C_DEFAULT) /\
+  exc_resp S_resource_provider__create_resource_provider__create EDuplicate = Some (err 409 C_DUPNAME) /\
+  exc_resp S_resource_provider__create_resource_provider__create EObjAction = Some (err 400 C_DEFAULT) /\
+  exc_resp S_resource_provider__update_resource_provider__save EDuplicate = Some (err 409 C_DUPNAME) /\
+  exc_resp S_resource_provider__update_resource_provider__save EObjAction = Some (err 400 C_DEFAULT).
+Proof.
+  split; [exact exc_inv_put|]. split; [exact exc_rp_delete|].
+  destruct exc_traits_set as [A [B C]]. repeat (split; [assumption|]). exact exc_names.
+Qed.
+Print Assumptions C15_exceptions_other.
